@@ -60,6 +60,7 @@ type FuncSpec struct {
 	Decreases  *Clause
 	Rank       int
 	Asserts    []*AssertClause
+	ResultOf   []string
 }
 
 type Lemma struct {
@@ -219,6 +220,10 @@ func parseClauseLine(fs *FuncSpec, l string) error {
 			return err
 		}
 		fs.Decreases = &Clause{Label: "decreases", Text: rest, Node: n}
+		return nil
+	case strings.HasPrefix(l, "returns-result-of "):
+		// on every path through a call of the named function, this function returns what that call returned
+		fs.ResultOf = append(fs.ResultOf, strings.TrimSpace(strings.TrimPrefix(l, "returns-result-of ")))
 		return nil
 	case l == "no-safety":
 		fs.NoSafety = true
@@ -701,6 +706,19 @@ func (e *SpecEnv) eval(x ast.Expr) Val {
 			if v, ok := e.pkgConst(id.Name, n.Sel.Name); ok {
 				return v
 			}
+			// pkg.Var: a package-level variable of an imported package (the same symbolic value the code reads)
+			for _, imp := range c.pkg.Types.Imports() {
+				if imp.Name() == id.Name {
+					if gv, ok := imp.Scope().Lookup(n.Sel.Name).(*types.Var); ok {
+						if _, shadow := e.binds[id.Name]; !shadow {
+							if types.Implements(gv.Type(), errorIface) {
+								return c.errConst(gv) // sentinel errors are distinct constants, as in the code's own reads
+							}
+							return c.globalVar(e.st, gv)
+						}
+					}
+				}
+			}
 		}
 		base := e.eval(n.X)
 		switch b := base.(type) {
@@ -1162,6 +1180,12 @@ func (e *SpecEnv) call(n *ast.CallExpr) Val {
 			return t[0]
 		}
 		return arg(0)
+	}
+	if name == "second" {
+		if t, ok := arg(0).(TupleV); ok && len(t) > 1 {
+			return t[1]
+		}
+		panic(unsupported{"contract: second() of a value that is not a pair"})
 	}
 	if t, ok := specConvTypes[name]; ok {
 		v := arg(0)
